@@ -6,6 +6,7 @@ package main
 import (
 	"verif/mc"
 
+	_ "verif/checks/c06"
 	_ "verif/checks/c19"
 )
 
